@@ -76,7 +76,7 @@ def gen_cases(tier, seed):
         for v in range(FUNCS[name][0]):
             cases.append(dict(kind="func", name=name, variant=v))
     for name in sorted(PROXES):
-        for v in range(3):
+        for v in range(5):
             cases.append(dict(kind="prox", name=name, variant=v))
     # process histories: ordered pairs of differently-typed calls, each pair in a FRESH interpreter
     hist_names = [n for n in sorted(FUNCS) if n.startswith("thresh.")] + ["prox.L1Reg", "prox.LInfProj", "prox.L1Proj"]
@@ -280,9 +280,10 @@ def _mk_funcs():
     reg("util.leja", 2, lambda v: (sp.util.leja, [_arr([5], _DT[v % 2])], ()))
     reg("util.monte_carlo_sure", 2, lambda v: (
         lambda y: sp.util.monte_carlo_sure(lambda t: 0.5 * t, y, 0.1), [_arr([6], _DT[v % 2] if v else np.complex128)], ()))
-    reg("util.axpy", 3, lambda v: (sp.util.axpy, [_arr([4], _DT[v]), 2.0, _arr([4], _DT[v], 1)], (0,)))
-    reg("util.xpay", 3, lambda v: (sp.util.xpay, [_arr([4], _DT[v]), 2.0, _arr([4], _DT[v], 1)], (0,)))
-    reg("backend.copyto", 3, lambda v: (sp.copyto, [_arr([4], _DT[v]), _arr([4], _DT[v], 1)], (0,)))
+    reg("util.axpy", 5, lambda v: (sp.util.axpy, [_arr([3, 4], *_v(v)), 2.0, _arr([3, 4], _v(v)[0], 1)], (0,)))
+    reg("util.axpy.arr", 5, lambda v: (sp.util.axpy, [_arr([3, 4], *_v(v)), np.abs(_arr([3, 4], np.float64, 2)), _arr([3, 4], _v(v)[0], 1)], (0,)))
+    reg("util.xpay", 5, lambda v: (sp.util.xpay, [_arr([3, 4], *_v(v)), 2.0, _arr([3, 4], _v(v)[0], 1)], (0,)))
+    reg("backend.copyto", 5, lambda v: (sp.copyto, [_arr([3, 4], *_v(v)), _arr([3, 4], _v(v)[0], 1)], (0,)))
     reg("fourier.fft", 5, lambda v: (sp.fft, [_arr([3, 4], *_v(v))], ()))
     reg("fourier.fft.axes", 5, lambda v: (lambda x: sp.fft(x, oshape=[3, 6], axes=(-1,), center=True), [_arr([3, 4], *_v(v))], ()))
     reg("fourier.fft.nocenter", 5, lambda v: (lambda x: sp.fft(x, center=False, norm=None), [_arr([3, 4], *_v(v))], ()))
@@ -439,6 +440,18 @@ def run_func(case, seed):
         if i not in mutable and a != b:
             V("input-mutated", "argument %d" % i, "argument %d of %s was modified by the call (variant %d: dtype %s layout %s)" % (
                 i, name, variant, _v(variant)[0].__name__, _v(variant)[1]))
+    # layout invariance: Fortran-ordered / strided arguments must give the values of their C-contiguous twins
+    if variant >= 3:
+        fn3, args3, _ = FUNCS[name][1](variant)
+        args3 = [np.ascontiguousarray(a) if isinstance(a, np.ndarray) else
+                 ([np.ascontiguousarray(x) for x in a] if isinstance(a, list) and a and isinstance(a[0], np.ndarray) else a) for a in args3]
+        np.random.seed(seed % 2 ** 32)
+        out3 = fn3(*args3)
+        c1 = out1c if not mutable else args[mutable[0]]
+        c3 = out3 if not mutable else args3[mutable[0]]
+        if not _same_values(c1, c3):
+            V("layout-invariance", "non-contiguous argument", "%s gives different values for a %s argument than for its C-contiguous copy" % (
+                name, "Fortran-ordered" if variant == 3 else "strided"))
     # repeatability on fresh, equal arguments (and same RNG seed)
     fn2, args2, _ = FUNCS[name][1](variant)
     np.random.seed(seed % 2 ** 32)
@@ -450,6 +463,15 @@ def run_func(case, seed):
     # output aliasing an input is allowed; but then writing the output must not be how inputs change - nothing to check
     return dict(states=2, transitions=2, nontrivial=True,
                 outcome="ok" if not viol else "violation:" + viol[0]["oracle"], viol=viol)
+
+
+def _same_values(o1, o2):
+    if isinstance(o1, (list, tuple)):
+        return len(o1) == len(o2) and all(_same_values(a, b) for a, b in zip(o1, o2))
+    if o1 is None:
+        return o2 is None
+    a, b = np.asarray(o1), np.asarray(o2)
+    return a.shape == b.shape and np.allclose(a, b, rtol=1e-12, atol=1e-12, equal_nan=True)
 
 
 def _copy(o):
@@ -468,10 +490,10 @@ def run_prox(case, seed):
         viol.append(dict(oracle=oracle, key=dict(site="prox." + name, when=when), detail=detail))
 
     P = PROXES[name]()
-    dt = _DT[variant]
+    dt = _DT[variant] if variant < 3 else np.complex128
     if name.startswith("BoxConstraint"):
         dt = np.float64 if variant != 1 else np.float32
-    x = _arr(P.shape, dt, 8)
+    x = _arr(P.shape, dt, 8, "C" if variant < 3 else ("F" if variant == 3 else "S"))
     if name == "PsdProj":
         x = x + x.conj().T
     x0 = x.copy()
@@ -495,6 +517,11 @@ def run_prox(case, seed):
             if snap2.get(p) != d:
                 V("captured-array-mutated", "captured", "prox %s changed its own array at %s" % (name, p))
         snap = snap2
+    if variant >= 3 and outs[0] is not None and name != "PsdProj":
+        yc = PROXES[name]()(0.5, np.ascontiguousarray(x0))
+        if not _same_values(outs[0], yc):
+            V("layout-invariance", "non-contiguous input", "prox %s gives different values for a %s input than for its C-contiguous copy" % (
+                name, "Fortran-ordered" if variant == 3 else "strided"))
     if outs[0] is not None and outs[2] is not None and not _same(outs[0], outs[2]):
         V("determinism", "repeated call", "prox %s: third call (same alpha) differs from the first" % name)
     return dict(states=3, transitions=trans, nontrivial=True,
